@@ -848,7 +848,19 @@ def rule_translated_slices(repo):
     return tr_util.rule_slice(repo, backend='sv')
 
 
-RULES = [rule_bounds, rule_nonefalsy, rule_frame, rule_fit, rule_helpers, rule_intlog, rule_signal_slices, rule_rtlir_slices,
+def rule_translated_reductions(repo):
+    """sibling implementation of the reduce operators and of concat: the SystemVerilog text emitted for reduce_and / _or / _xor
+    (a unary reduction of the WHOLE operand) and for concat -- decided by C03's operator rule (R-tr-optable); only its
+    visit_Reduce / visit_Concat clauses are C05's matter, the rest of the operator table is dropped here"""
+    from sa import tr_util
+    res = tr_util.rule_optable(repo, backend='sv')
+    mine = lambda fn: 'visit_Reduce' in fn or 'visit_Concat' in fn
+    res.findings = [f for f in res.findings if mine(f.func) or mine(f.construct)]
+    res.instances = [i for i in res.instances if i['verdict'] != 'VIOLATED' or mine(i['construct'])]
+    return res
+
+
+RULES = [rule_translated_reductions, rule_bounds, rule_nonefalsy, rule_frame, rule_fit, rule_helpers, rule_intlog, rule_signal_slices, rule_rtlir_slices,
          rule_slice_nodes, rule_translated_slices, rule_value_semantics, rule_rtlir_slice_step, rule_alias, rule_const_fit, rule_width_tables, rule_operand_kinds]
 
 
